@@ -402,7 +402,8 @@ var trAddrs = []string{"h1", "h2:9100", "h3:80", "h4", "bad/addr", ""}
 // IPv6 literals: in brackets without a port (the port is completed), in brackets with one
 var trAddrs6 = []string{"[fd00::2]", "[2001:db8::5]:9100"}
 var trLabelPool = [][2]string{{"env", "prod"}, {"env", "dev"}, {"zone", "z1"}, {"app", "web"}, {"__meta_role", "pod"}, {"__meta_path", "/custom"},
-	{"__meta_9x", "nine"}, {"__scheme__", "https"}, {"__metrics_path__", "/own"}, {"instance", "inst1"}, {"__param_module", "disc"}, {"job", "other"}}
+	{"__meta_9x", "nine"}, {"__scheme__", "https"}, {"__metrics_path__", "/own"}, {"instance", "inst1"}, {"__param_module", "disc"}, {"job", "other"},
+	{"__scheme__", "ftp"}} // a scheme without a default port: dropped when the address has none, requested as written otherwise
 
 func translateGen(r *rand.Rand, idx int, thorough bool) interface{} {
 	c := &trCase{Scheme: []string{"http", "https"}[r.Intn(2)], Path: []string{"/metrics", "/probe"}[r.Intn(2)], Modelled: true}
